@@ -189,6 +189,7 @@ class Interp:
         self._eqconst = {}
         self.depth = 0
         self.sym_loop_limit = 3
+        self.extern_hook = None     # optional hook(interp, name, args, node, default_result)
         self.loop_abort = False     # True: a symbolic loop that does not close ends the path ('loop-bound')
         self.inline_filter = None   # optional predicate(name) -> bool: interpret body?
         self.on_call = None         # optional hook(name, args, node)
@@ -207,6 +208,7 @@ class Interp:
             self._ndec = 0
             self._known = {}
             self._eqconst = {}
+            self._ncall = 0
             self.path = Path()
             self.globals = {}
             self.depth = 0
@@ -240,6 +242,8 @@ class Interp:
             return bool(cond)
         # a condition already decided on this path keeps its outcome (unknowns are immutable symbols)
         cond = norm_cond(cond)
+        if cond.op == '!' and len(cond.args) == 1 and is_sym(cond.args[0]):
+            return not self.decide(cond.args[0], node)     # decide the positive form (canonical)
         known = self._known
         if cond in known:
             return known[cond]
@@ -318,8 +322,14 @@ class Interp:
         if isinstance(fn, str):
             found = self.find_fn(name, self.cur_tu)
             if found is None or (self.inline_filter is not None and not self.inline_filter(name)):
-                self.event('extern:' + name, args, node)
-                return Sym('call', (name,) + tuple(_hashable(a) for a in args))
+                self.event('extern:' + name, tuple(_hashable(a) for a in args), node)
+                self._ncall = getattr(self, '_ncall', 0) + 1
+                res = Sym('call', (name, self._ncall) + tuple(_hashable(a) for a in args), qtype(node) if node is not None else '')
+                if self.extern_hook is not None:
+                    r2 = self.extern_hook(self, name, args, node, res)
+                    if r2 is not None:
+                        return r2
+                return res
             fdecl, tu = found
         else:
             fdecl, tu = fn, self.cur_tu
@@ -1115,6 +1125,10 @@ class Interp:
         ks = kids(n)
         callee = ks[0]
         cn = astdb.callee_name(n)
+        if cn is not None:
+            c0 = astdb.strip(callee)
+            if (c0.get('referencedDecl') or {}).get('kind') != 'FunctionDecl':
+                cn = None      # call through a function-pointer variable / parameter
         args = [self.eval(a) for a in ks[1:]]
         if cn is None:
             f = self.eval(callee)
